@@ -32,8 +32,9 @@ def symbols(mutators_only=False):
 
 
 def configs():
-    """'fresh' (EMPTY_BIG_MAP) and the 8 on-chain-backed splits (bit i set = key i is on chain)."""
-    return ['fresh'] + [f'chain{m}' for m in range(8)]
+    """'fresh' (EMPTY_BIG_MAP), the 8 on-chain-backed splits (bit i set = key i is on chain) and the 7 big_maps
+    initialised from a non-empty literal (storage literal `{ Elt k v; … }`: local entries, nothing on chain)."""
+    return ['fresh'] + [f'chain{m}' for m in range(8)] + [f'lit{m}' for m in range(1, 8)]
 
 
 class Env:
@@ -53,8 +54,10 @@ class Env:
         self.hashes = [S.key_hash(self.t_key, k) for k in self.keys]
         self.type_expr = {'prim': 'big_map', 'args': [R.thaw(R.type_to_micheline(self.t_key)) if False else _type_expr(self.t_key),
                                                       {'prim': 'nat'}]}
-        self.fresh = cfg == 'fresh'
-        mask = 0 if self.fresh else int(cfg[5:])
+        self.fresh = not cfg.startswith('chain')          # no on-chain big_map: the diff allocates
+        mask = int(cfg[5:]) if cfg.startswith('chain') else 0
+        self.lit_mask = int(cfg[3:]) if cfg.startswith('lit') else 0
+        self.literal = {k: 100 + i for i, k in enumerate(self.keys) if self.lit_mask >> i & 1}
         self.chain = {k: 100 + i for i, k in enumerate(self.keys) if mask >> i & 1}
         self.chain_by_hash = {self.hashes[i]: (self.key_expr[i], {'int': str(100 + i)})
                               for i in range(3) if mask >> i & 1}
@@ -83,10 +86,16 @@ class Env:
         self.bm_cls = MichelsonType.match(self.type_expr)
         self.K, self.V = self.bm_cls.args
         self.key_objs = [self.K.from_micheline_value(e) for e in self.key_expr]
+        self.sentinel = self.val(7777)
 
     def initial(self):
         from pytezos.michelson.instructions.base import MichelsonInstruction
         from pytezos.michelson.stack import MichelsonStack
+        if self.lit_mask:
+            bm = self.bm_cls.from_micheline_value([{'prim': 'Elt', 'args': [self.key_expr[i], {'int': str(100 + i)}]}
+                                                   for i in range(3) if self.lit_mask >> i & 1])
+            bm.attach_context(self.ctx)
+            return bm
         if self.fresh:
             st = MichelsonStack()
             ins = MichelsonInstruction.match({'prim': 'EMPTY_BIG_MAP', 'args': self.type_expr['args']})
@@ -113,7 +122,7 @@ def _stack(env, items):
     """fresh stack with a sentinel at the bottom (must stay untouched); items pushed so that items[0] ends on top"""
     from pytezos.michelson.stack import MichelsonStack
     st = MichelsonStack()
-    st.push(env.val(7777))
+    st.push(env.sentinel)
     for x in reversed(items):
         st.push(x)
     return st
@@ -132,7 +141,7 @@ def apply_real(env, bm, op, i, newval):
     if op == 'GET':
         st = _stack(env, [key, bm])
         GetInstruction.execute(st, [], env.ctx)
-        assert len(st.items) == 2, 'GET: stack shape'
+        assert len(st.items) == 2 and st.items[1] is env.sentinel, 'GET: stack shape'
         return st.items[0].to_micheline_value(), None
     if op == 'MEM':
         st = _stack(env, [key, bm])
@@ -160,7 +169,7 @@ def apply_ref(ref, keys, op, i, newval):
     return (_opt_expr(prev) if op.startswith('GAU') else None), ref2
 
 
-def root_cause(bm):
+def root_cause(bm, env=None, ref=None):
     """precise, stable description of the state of the real object when an observation is wrong"""
     marks = []
     try:
@@ -171,6 +180,13 @@ def root_cause(bm):
             marks.append('items holds a key twice')
         if any(k in ks for k in bm.removed_keys):
             marks.append('a key is both in items and in removed_keys')
+        if not marks and env is not None and ref is not None:
+            local = [k.to_micheline_value() for k in ks]
+            for i, k in enumerate(env.keys):
+                if ref.overlay.get(k) is not None and env.key_expr[i] not in local:
+                    marks.append('a locally written key is missing from items (write to a key that exists only on chain is lost)'
+                                 if k in env.chain else 'a locally written key is missing from items')
+                    break
     except Exception as e:      # representation changed: no marks
         marks.append(f'state not inspectable ({type(e).__name__})')
     return '; '.join(marks) or 'local state looks well-formed'
@@ -200,7 +216,7 @@ def check_diff(env, bm, ref):
     final = ref.final()
     want = {env.hashes[env.keys.index(k)]: (env.key_expr[env.keys.index(k)], {'int': str(v)}) for k, v in final.items()}
     if got != want:
-        return 'diff.applied', (f'diff applied to the on-chain contents gives {sorted((repr(k[0]), v["int"]) for k, v in got.values())}, '
+        return 'diff.applied', (f'diff applied to the on-chain contents gives {sorted((repr(k), v["int"]) for k, v in got.values())}, '
                                 f'reference dictionary {sorted((repr(env.key_expr[env.keys.index(k)]), str(v)) for k, v in final.items())}; '
                                 f'updates {[(u["key"], u.get("value")) for u in e["diff"]["updates"]]}')
     return None
@@ -209,7 +225,7 @@ def check_diff(env, bm, ref):
 def walk(env, prefix, max_len, syms, observe_all, out, counters):
     """DFS below `prefix` (list of symbols, re-executed first)."""
     bm = env.initial()
-    ref = S.Layered(env.chain)
+    ref = S.Layered(env.chain, env.literal)
     step = 0
     for sym in prefix:
         r = _step(env, bm, ref, sym, step, list(prefix[:step + 1]), observe_all, out, counters)
@@ -230,8 +246,8 @@ def _dfs(env, bm, ref, hist, max_len, syms, observe_all, out, counters):
             _dfs(env, r[0], r[1], h2, max_len, syms, observe_all, out, counters)
 
 
-def _report(env, out, clause, detail, hist, bm):
-    out.append(dict(clause=clause, detail=detail, wclass=f'{clause.split(".")[0]} wrong: {root_cause(bm)}',
+def _report(env, out, clause, detail, hist, bm, ref=None):
+    out.append(dict(clause=clause, detail=detail, wclass=f'{clause.split(".")[0]} wrong: {root_cause(bm, env, ref)}',
                     uni=env.uni, cfg=env.cfg, hist=[list(s) for s in hist]))
 
 
@@ -249,7 +265,7 @@ def _step(env, bm, ref, sym, step, hist, observe_all, out, counters):
     want, ref2 = apply_ref(ref, env.keys, op, i, newval)
     if obs != want:
         _report(env, out, {'GET': 'GET.result', 'MEM': 'MEM.result'}.get(op, 'GET_AND_UPDATE.previous'),
-                f'history {hist}: {op} key {env.key_expr[i]} observed {obs}, reference {want}', hist, bm)
+                f'history {hist}: {op} key {env.key_expr[i]} observed {obs}, reference {want}', hist, bm, ref)
         return None
     bm2 = bm2 if bm2 is not None else bm
     if observe_all and op in MUTATORS:
@@ -264,15 +280,17 @@ def _step(env, bm, ref, sym, step, hist, observe_all, out, counters):
                 counters['observations'] += 1
                 if got != w:
                     _report(env, out, f'{o}.result', f'history {hist} then {o} key {env.key_expr[j]}: observed {got}, reference {w}',
-                            hist + [(o, j)], bm2)
+                            hist + [(o, j)], bm2, ref2)
                     return None
-    try:
-        d = check_diff(env, bm2, ref2)
-    except Exception as e:
-        d = ('diff.raises', f'{type(e).__name__}: {e}')
-    counters['diffs'] += 1
+    d = None
+    if op in MUTATORS:          # observers leave the state (hence the diff) unchanged: checked after mutators only
+        try:
+            d = check_diff(env, bm2, ref2)
+        except Exception as e:
+            d = ('diff.raises', f'{type(e).__name__}: {e}')
+        counters['diffs'] += 1
     if d is not None:
-        _report(env, out, d[0], f'history {hist}: {d[1]}', hist, bm2)
+        _report(env, out, d[0], f'history {hist}: {d[1]}', hist, bm2, ref2)
         return None
     return bm2, ref2
 
@@ -291,7 +309,7 @@ def replay_history(uni, cfg, hist, observe_all=True):
     out = []
     counters = dict(nodes=0, observations=0, diffs=0)
     bm = env.initial()
-    ref = S.Layered(env.chain)
+    ref = S.Layered(env.chain, env.literal)
     for step, sym in enumerate(hist):
         sym = tuple(sym)
         if sym[0] in ('GET', 'MEM') and step == len(hist) - 1 and False:
